@@ -16,6 +16,7 @@ type Finding struct {
 	Configs    string
 	Trigger    string
 	Witnesses  []string // paths relative to the verif root
+	Class      string   // "memory-value": the finding can only corrupt values obtained through loads and the final memory
 	What       string
 }
 
@@ -58,7 +59,7 @@ func Load() (*File, error) {
 		switch {
 		case strings.HasPrefix(line, "finding:"):
 			kv, what := fields(strings.TrimPrefix(line, "finding:"))
-			fd := Finding{ID: kv["id"], Configs: kv["configs"], Trigger: kv["trigger"], What: what}
+			fd := Finding{ID: kv["id"], Configs: kv["configs"], Trigger: kv["trigger"], Class: kv["class"], What: what}
 			if kv["property"] != "" {
 				fd.Properties = strings.Split(kv["property"], ",")
 			}
